@@ -2572,3 +2572,80 @@ def c19_scram_outcome(env):
 
 
 REGISTRY.setdefault("C19", []).append(c19_scram_outcome)
+
+
+def c19_client_outcome_code(env):
+    o = Obligation("c19_client_non_ok_outcome_is_failure", "C19")
+    o.desc = "the client's SASL negotiation loop (Builder::negotiate_sasl): it returns Ok -- the only way on to the AMQP header -- only from an outcome frame that SaslProfile::on_frame accepted and whose code is OK; auth / sys / sys-perm / sys-temp, an on_frame error, a transport error and end-of-stream all return an error"
+    fn = env.fn(r"^connection::builder::<impl at [^>]*>::negotiate_sasl::\{closure#0\}$")
+    o.functions = [fn.name]
+    o.bounds = ["coroutine body from its initial state through one poll: first frame of the exchange (every later iteration re-enters the same loop head); every result of Transport::next, of on_frame and every outcome code"]
+    o.assumes = ["SaslProfile::on_frame is C19's other obligation"]
+    ex = env.executor(max_visits=3)
+    f_code = env.fidx("SaslOutcome", "code")
+    NE = env.enums.get("Negotiation")
+    if not NE or "Outcome" not in NE:
+        raise mir.Unsupported("Negotiation enum not found")
+    seen = []
+
+    def m_on_frame(ex_, st, callee, args, argvals, dty):
+        k = len(seen)
+        r = mir.Agg("on_frame.result")
+        r["#d"] = z3.BitVec(f"on_frame#{k}.is_err", 64)
+        neg = mir.Agg("negotiation")
+        neg["#d"] = z3.BitVec(f"on_frame#{k}.negotiation", 64)
+        outc = mir.Agg("outcome")
+        code = mir.Agg("code")
+        code["#d"] = z3.BitVec(f"on_frame#{k}.outcome.code", 64)
+        outc[f_code] = code
+        ov = mir.Agg("Outcome")
+        ov[0] = outc
+        neg[("as", "Outcome")] = ov
+        okv = mir.Agg("Ok")
+        okv[0] = neg
+        r[("as", "Ok")] = okv
+        ex_.assumptions += [z3.ULE(r["#d"], 1), z3.Or(*[neg["#d"] == v for v in NE.values()]), z3.ULE(code["#d"], 4)]
+        seen.append((r["#d"], neg["#d"], code["#d"]))
+        return r
+
+    ex.models = [(r"^SaslProfile::on_frame$", m_on_frame)]
+    pin, cor = coroutine_start(env, "@self", {})
+    paths = ex.run(fn, {"_1": pin, "@cor": cor, "@self": mir.Agg("builder")})
+    hyp = ex.assumptions
+
+    def replay(m):
+        cmds = [f"sasl_outcome {c}" for c in (0, 1, 2, 3, 4)]
+        return cmds, (lambda outs: any(js.get("panic") or js["client_proceeded"] != (c == 0) for c, js in zip((0, 1, 2, 3, 4), outs)))
+
+    n = 0
+    for i, p in enumerate(paths):
+        if p.end != "return":
+            continue
+        rdy, is_ok = poll_ready_result(p.ret)
+        if not z3.is_true(z3.simplify(rdy)) or is_ok is None:
+            continue
+        H = hyp + p.cond + [is_ok]
+        s = z3.Solver()
+        s.add(*H)
+        if s.check() != z3.sat:
+            continue
+        n += 1
+        calls = [c for c in p.calls if re.search(r"^SaslProfile::on_frame$", c[0])]
+        o.prove(f"path{i}:success-only-after-on_frame", H, z3.BoolVal(len(calls) >= 1), replay=replay)
+        if not calls or not isinstance(calls[-1][3], mir.Agg):
+            continue
+        r = calls[-1][3]
+        try:
+            neg = r[("as", "Ok")][0]
+            err_d, neg_d, code_d = r["#d"], neg["#d"], neg[("as", "Outcome")][0][f_code]["#d"]
+        except (KeyError, TypeError):
+            o.prove(f"path{i}:success-path-reads-the-outcome-code", H, z3.BoolVal(False), replay=replay)
+            continue
+        o.prove(f"path{i}:success-only-if-on_frame-accepted", H, err_d == 0, replay=replay)
+        o.prove(f"path{i}:success-only-from-an-outcome-frame", H, neg_d == NE["Outcome"], replay=replay)
+        o.prove(f"path{i}:success-only-with-code-ok", H, code_d == 0, replay=replay)
+    o.cover("a success path exists", [z3.BoolVal(n > 0)])
+    return [o]
+
+
+REGISTRY.setdefault("C19", []).append(c19_client_outcome_code)
